@@ -45,6 +45,52 @@ CLAIMED = {
              "L-lev0/L-sym are Lean-proved lemmas imported as axioms (statement transcription SMT<->Lean is by hand, see DESIGN).",
         technique="contract-based deductive verification: loop invariants + comprehension sites + imported Lean lemmas, cvc5/z3",
         design="5/C01"),
+    "C03": dict(
+        text="SymdelDB.__init__/lookup, symdel with a second collection (also when the very same object is passed twice), LookupDB.__init__/lookup, "
+             "_generate_neighbors (round invariant: after round d the keys are exactly the strings within distance d, from the Lean lemmas "
+             "L-step A/B) and the generators behind them are verified: the result is exactly {(q, r, d): d = dist(query[q], reference[r]) <= "
+             "max_edits}, each pair once, q == r included; lookups have an empty frame (any mutation of self or module state is a failed "
+             "frame obligation), so every lookup history answers like a fresh database.",
+        note=NOTE_COMMON + " LookupDB (hash) results are for strings over the 20 amino-acid letters (the engine's own alphabet).",
+        technique="contract-based deductive verification: invariants, comprehension sites with witness hints, frame obligations, Lean lemmas",
+        design="5/C03"),
+    "C04": dict(
+        text="hash_based (through LookupDB) and kdtree (_histogram_encode loop invariant against the recursive bin-count function, KD-tree "
+             "ball query, _to_triplets, _cal_levenshtein, _kdtree_leven) are each proved to return exactly the triplet set of the default "
+             "search's specification (same spec bag as symdel), for all amino-acid sequence lists, all max_edits, every container kind; the "
+             "pre-filter loses nothing by the Lean lemma L-enc (squared histogram distance <= 2 lev^2).",
+        note=NOTE_COMMON + " KDTree.query_ball_point, rapidfuzz extract and Pool.map are assumed contracts; floats as reals (the radius "
+             "sqrt(2)*k is exact); max_returns is None in the verified domain.",
+        technique="contract-based deductive verification: VCs from the real AST + Lean lemma L-enc, cvc5/z3",
+        design="5/C04"),
+    "C07": dict(
+        text="With custom_distance='hamming' symdel, SymdelDB.lookup, LookupDB.lookup / hash_based and kdtree (length buckets: _to_len_bucket "
+             "invariant, positions mapped back) are proved to report exactly the pairs of equal length with at most max_edits mismatches, d = "
+             "number of mismatches, in positions of the original input; unequal lengths give infinity in _hamming_replacement and are never reported.",
+        note=NOTE_COMMON + " rapidfuzz Hamming.distance is assumed only for equal lengths (equal length is a call pre-condition the engine "
+             "discharges at every call site).",
+        technique="contract-based deductive verification + Lean lemmas L-hamdel, L-hstep, lev_le_ham", design="5/C07"),
+    "C10": dict(
+        text="_make_output (matrix cells: M[r,q] = d for every triplet, 0 elsewhere, shape, no entry accumulated twice as a call pre-condition "
+             "proved at every caller), _check_common_input (every invalid argument class rejected with AssertionError, valid ones accepted: all "
+             "1296 type combinations), ensure_numpy, and the engines' contracts for list / tuple / ndarray / Series-with-arbitrary-integer-labels "
+             "containers (positions are ordinal positions) are verified.",
+        note=NOTE_COMMON + " scipy coo_matrix / pandas label-vs-position semantics are assumed contracts; string index labels are covered "
+             "by the falsifier scope only.",
+        technique="contract-based deductive verification (type-variant enumeration x symbolic values)", design="5/C10"),
+    "C11": dict(
+        text="_to_triplets is proved to return the concatenation of the per-query results in both the serial and the Pool branch (Pool.map "
+             "pre-condition chunksize >= 1 is an obligation; the write of _cal_params must precede Pool creation), kdtree's result is "
+             "independent of n_cpu and of compression >= 1 because its post-condition is the fixed specification set.",
+        note=NOTE_COMMON + " NOT decided: process schedules (reduced to the assumed Pool.map contract) and the max_returns clause "
+             "(rapidfuzz extract(limit=...) / sorted()[:limit] are not modelled; max_returns is None in the verified domain).",
+        technique="contract-based deductive verification with assumed multiprocessing contract", design="5/C11"),
+    "C14": dict(
+        text="For a callable custom distance every engine (symdel, SymdelDB.lookup, LookupDB.lookup / hash_based, _cal_custom_dist / kdtree) "
+             "is proved to report a pair exactly when lev <= max_edits and custom <= max_custom_distance, valued by the custom distance (the "
+             "callable is an uninterpreted symmetric function, so membership depends on the two distances only).",
+        note=NOTE_COMMON + " NOT decided here: nearest_neighbor_tcrdist (pwseqdist is absent from the sandbox; see not_decided in the evidence).",
+        technique="contract-based deductive verification with uninterpreted distance functions", design="5/C14"),
 }
 NOT_BUILT = "machinery for this property not built yet (build in progress; see DESIGN.md section 8)"
 
